@@ -32,6 +32,7 @@ def mk_tx(ex, sw, st, pending=True):
     # a hash determines its content, hence its length; all distinct contents fit in u64 bytes
     h = sw.sym_hash(st, "op_hash")
     st.meta["content-hash"] = h
+    st.meta["hashed-content"] = (("content",),)
     sw.op_hash = h
     w = sw.iw
     for i in range(w.U):
@@ -112,6 +113,15 @@ def explore(ex, name, U=2, HU=2, faults=0, spill=False, **world):
     spill = world.pop("spill", spill)
     sw = SystemWorld(ex, st, U=U, HU=HU, **world)
     sw.io.spill = spill
+    saved_table = dict(ex.models.table)
+    try:
+        return _explore(ex, name, sw, st)
+    finally:
+        ex.models.table.clear()
+        ex.models.table.update(saved_table)
+
+
+def _explore(ex, name, sw, st):
     fn, args = ENTRY[name](ex, sw, st)
     if fn == "drop":
         # dropping a value: run the drop glue (Drop impls, field drops) on it
